@@ -99,9 +99,9 @@ def scenario(sim: Sim) -> None:
     pool = ch.chance("pool_variant", 0.3)
     nbat = ch.int_between("nbat", 2, 3) if pool else 1
     exact = ch.chance("exact_profile", 0.6)
-    max_age_us = ch.choice("max_age", [5_000_000, 2_000_000, 10_000_000])
-    max_blk_us = ch.choice("max_blk", [8_000_000, 4_000_000, 30_000_000])
-    min_blk_us = 1_000_000
+    max_age_us = ch.choice("max_age", [5_000_000, 2_000_000, 10_000_000, 1_500_000, 700_000])
+    max_blk_us = ch.choice("max_blk", [8_000_000, 4_000_000, 30_000_000, 2_500_000])
+    min_blk_us = 1_000_000      # fixed inside the tracker (BlockingStatus(min_duration=1 s))
     stall_max = 0 if exact else 1_500_000
     slack = 0 if exact else stall_max + 20_000
     if not exact:
